@@ -63,10 +63,60 @@ def envSlotsB (s : St CHeap) : Bool :=
        | _ => true)
     | _ => true
 
+/-! ## the invariant form of the slot clause (evaluated, not yet proved preserved)
+
+`envSlotsB` looks at the instruction under `ip`. The facts that would make it an invariant, as whole-state clauses:
+
+* `closFitB` — every closure cell `Closure(l, e)`: the environment `e` has a slot for every entry of `l`'s
+  environment map (CLOSURE builds it from that map; `set!` through `envPut` keeps the length);
+* `childEnvB` — every lambda object `l`, every `MOVIMM <Ptr(p)>` immediate of its code with `p` a lambda object:
+  the `IofEnvironment(k)` sources of `p`'s map index `l`'s map (`EnvironmentMap::new_from_iof`);
+* `frameEnvB` — every adjacent pair `EnvironmentPointer(e), InstructionPointer(l, _)` in the live stack and in the
+  stack copy of every continuation object (the two header cells CALL pushes): `e`, when it is an environment, has a
+  slot for every entry of `l`'s map. -/
+
+def closFitB (h : CHeap) : Bool :=
+  h.cells.all fun c => match c with
+    | .val (.closure l e) =>
+      (match lambdaAt h l, envAt h e with
+       | some lam, some ss => decide (lam.envmap.length ≤ ss.length)
+       | _, _ => true)
+    | _ => true
+
+def childEnvB (h : CHeap) : Bool :=
+  h.cells.all fun c => match c with
+    | .lambda l =>
+      (List.range l.bc.length).all fun j =>
+        (match l.bc[j]?, l.bc[j + 1]? with
+         | some (.opcode .movImm), some (.ptr p) =>
+           (match lambdaAt h p with
+            | some lam' => iofEnvFitB lam'.envmap l.envmap.length
+            | none => true)
+         | _, _ => true)
+    | _ => true
+
+def framePairsB (h : CHeap) (cells : List VCell) (sp : Nat) : Bool :=
+  (List.range sp).all fun i =>
+    match cells[i]?, cells[i + 1]? with
+    | some (.envPtr e), some (.instrPtr l _) =>
+      (match lambdaAt h l, envAt h e with
+       | some lam, some ss => decide (lam.envmap.length ≤ ss.length)
+       | _, _ => true)
+    | _, _ => true
+
+def frameEnvB (s : St CHeap) : Bool :=
+  framePairsB s.heap s.stack.cells s.stack.sp &&
+  s.heap.cells.all fun c => match c with
+    | .cont k => framePairsB s.heap k.stack.cells k.stack.sp
+    | _ => true
+
 /-- first violated clause, for the driver -/
 def noPanicWhy (s : St CHeap) : Option String :=
   if !heapNPB s.heap then some "np-lambda" else
   if !contFitsB s then some "np-cont-fits" else
-  if !envSlotsB s then some "np-env-slots" else none
+  if !envSlotsB s then some "np-env-slots" else
+  if !closFitB s.heap then some "np-clos-fit" else
+  if !childEnvB s.heap then some "np-child-env" else
+  if !frameEnvB s then some "np-frame-env" else none
 
 end Marwood.Vm.Concrete
